@@ -253,8 +253,9 @@ def r08_6(prog, rep):
     obj = ("param", f.params[0])
     ok = False
     fixed_index = False
+    # (the search may be a comprehension inside the returned expression, or a loop with a flag: then the test sits in a guard)
     for p, r in P.returns(P.paths_of(prog, f)):
-        for s in T.walk(r):
+        for s in [y for tm in [r] + [g for g, _ in p.guards()] for y in T.walk(tm)]:
             if s[0] == "cmp" and s[1] in ("in", "is", "==") and (T.contains(s[3], lambda x: x == ("const", None)) or T.contains(s[3], lambda x: T.is_call_to(x, "builtins.type"))):
                 subj = s[2]
                 if subj[0] == "elem" and T.contains(subj[1], lambda x: x == ("attr", obj, "__args__") or (T.is_call_to(x, "builtins.getattr") and x[2][:2] == (obj, ("const", "__args__"))) or (T.is_call_to(x, "typing.get_args", f"{C.INSP}.args") and x[2][:1] == (obj,))):
